@@ -5,6 +5,7 @@ import (
 	"encoding/json"
 	"fmt"
 	"runtime"
+	"strings"
 	"sync"
 	"testing"
 	"time"
@@ -266,6 +267,10 @@ func (p *freeProp) run(t *testing.T) {
 			}
 		}
 		if err := p.Check(c); err != nil {
+			if strings.HasPrefix(err.Error(), "inconclusive") {
+				st.Exclude(err.Error()) // termination is C16's business; a time-out here is no verdict on ordering
+				return
+			}
 			path := evid.SaveFail(p.ID, p.Sub, c, err.Error())
 			rt.Fatalf("%s/%s violated: %v\ncase file: %s", p.ID, p.Sub, err, path)
 		}
